@@ -322,6 +322,13 @@ class TU:
             cname = self._scope_name(scope + [name + suffix])
             qual = self._qual(n, name, k, suffix)
             self.types.add_record(qual, cname)
+            if k == 'ClassTemplateSpecializationDecl':
+                alt = {'unsigned int': 'uint32_t', 'unsigned long': 'uint64_t', 'int': 'int32_t', 'long': 'int64_t'}
+                for a, b in alt.items():
+                    if qual.endswith('<%s>' % a):
+                        self.types.add_record(qual[:-len(a) - 2] + '<%s>' % b, cname)
+                        if a == 'unsigned long':
+                            self.types.add_record(qual[:-len(a) - 2] + '<>', cname)   # default template argument size_t
             n['_cname'] = cname
             n['_targ'] = suffix
             self.records.append((cname, n))
@@ -399,6 +406,8 @@ class TU:
             chain = []
             p = self.parent.get(id(q))
             while p is not None:
+                if p.get('kind') == 'CXXRecordDecl' and (self.parent.get(id(p)) or {}).get('kind') == 'ClassTemplateDecl':
+                    return   # member of an uninstantiated class template pattern: only instantiations are extracted
                 if p.get('kind') in ('CXXRecordDecl', 'ClassTemplateSpecializationDecl') and p.get('name'):
                     chain.append(p['name'] + p.get('_targ', ''))
                 p = self.parent.get(id(p))
@@ -719,6 +728,20 @@ class Emitter:
         if k == 'InitListExpr' and not init.get('inner'):
             self.emit_default_init(lhs, fld, ind)
             return
+        if k == 'InitListExpr' and ct.startswith(('arr_', 'vec_')):
+            # std::array<...> x{}: nested empty aggregate initialisation (only value-initialising fillers)
+            def empty(n):
+                if n.get('kind') == 'ImplicitValueInitExpr':
+                    return True
+                if n.get('kind') != 'InitListExpr':
+                    return False
+                if 'array_filler' in n:
+                    return len(n['array_filler']) == 1 and n['array_filler'][0].get('kind') == 'ImplicitValueInitExpr'
+                return all(empty(self.unwrap(c)) for c in n.get('inner', []))
+            if empty(init):
+                self.emit_default_init(lhs, fld, ind)
+                return
+            die('non-empty initialiser list for %s' % ct, init)
         if k == 'InitListExpr' and len(init['inner']) == 1 and ct not in self.tu_fields and not ct.startswith(('vec_', 'arr_')):
             self.w('%s = %s;' % (lhs, self.expr(init['inner'][0])), ind)
             return
@@ -847,6 +870,19 @@ class Emitter:
             for c in s.get('inner', []):
                 if 'Attr' not in c.get('kind', ''):
                     self.stmt(c, ind)
+        elif self.unwrap(s).get('kind') == 'CXXThrowExpr':
+            # throw E{...};  ->  set the flag and leave the function (callers in the extracted set test it)
+            self.stat('returns')
+            self.w('verif_thrown = 1; /* throw */', ind)
+            if self.cur.kind == 'ctor':
+                self.w('return self;', ind)
+            elif self.cur.kind == 'dtor':
+                die('throw inside destructor', s)
+            else:
+                rt = self.func_sig(self.cur)[0]
+                if rt != 'void':
+                    die('throw in a function returning %s is not modelled' % rt, s)
+                self.w('return;', ind)
         else:
             # expression statement
             self.w(self.expr_stmt(s) + ';', ind)
@@ -1352,6 +1388,20 @@ class Emitter:
                 vals = self.init_list_values(u)
                 if vals is not None and len(vals) == 1:
                     return 'vec_double_assign1(%s, %s)' % (self.addr(args[0]), vals[0])
+            if a0t == 'arr_double_100':
+                # std::array<double,100> = {v}: aggregate temporary, remaining elements value-initialised to 0.0
+                u = self.unwrap(args[1])
+                while u.get('kind') == 'InitListExpr' and u.get('inner') and self.unwrap(u['inner'][0]).get('kind') == 'InitListExpr':
+                    u = self.unwrap(u['inner'][0])
+                if 'array_filler' in u:
+                    # clang: [filler expression, explicit initialisers...]; the filler must be value initialisation
+                    if u['array_filler'][0].get('kind') != 'ImplicitValueInitExpr':
+                        die('array filler is not value-initialisation', u)
+                    vals = [self.expr(x) for x in u['array_filler'][1:]]
+                else:
+                    vals = self.init_list_values(u)
+                if vals is not None and len(vals) == 1:
+                    return 'arr_double_100_assign1(%s, %s)' % (self.addr(args[0]), vals[0])
         if rn == 'operator*':
             if a0t == 'shared_ptr_size':
                 return '(*shared_ptr_size_deref(%s))' % self.addr(args[0])
